@@ -374,7 +374,11 @@ _TASKS = []          # the chunks of the current correspond() call: workers are 
 def _worker_idx(i):
     """run one chunk; an exception of the harness itself comes back as a value, never through the pool"""
     try:
-        r = _worker(_TASKS[i])
+        # the cases reach the worker as FRESH objects (as they did when they travelled through the pool's pipe): a string in
+        # a generated configuration is equal to, never the same object as, a literal in the library — code that compares
+        # with `is`, or caches by identity, must not be flattered by shared objects
+        import pickle
+        r = _worker(pickle.loads(pickle.dumps(_TASKS[i])))
         r['_i'] = i
         return r
     except BaseException as ex:  # noqa
@@ -507,8 +511,9 @@ class Run:
         args = [(mod_name, c, use_model) for c in chunks]
         if len(chunks) == 1 or NPROC == 1:
             results = []
+            import pickle
             for a in args:
-                results.append(_worker(a))
+                results.append(_worker(pickle.loads(pickle.dumps(a))))       # fresh objects, as in the pool
                 if deadline and time.time() > deadline:
                     break
         else:
